@@ -17,6 +17,14 @@ try:
     CONV_GEN_STATUS = translate_c08_r3.generate(core.REPO, os.path.join(core.COQ, "gen"))
 except Exception as _ex:  # the generator itself broke: same fallback as an unparseable source
     CONV_GEN_STATUS = "unparsed generator-failed: %s" % str(_ex)[:200]
+# round 4: the rounding prefixes of fmt_round / fmt_round_scientific, the table of impl_fmt_with_base!, the scale-marker
+# table of the parser, the loop body of utils::common_root and the common-root branch of convert_base
+# (coq/gen/ConvBaseGen4.v; theorems C08_gen4_* of Float/ConvBaseGen4Proof.v are stated over these definitions)
+try:
+    import translate_c08_r4
+    CONV_GEN4_STATUS = translate_c08_r4.generate(core.REPO, os.path.join(core.COQ, "gen"))
+except Exception as _ex:
+    CONV_GEN4_STATUS = "unparsed generator-failed: %s" % str(_ex)[:200]
 
 # a run against a scratch checkout (VERIF_REPO) must not leave its formulas in the tree for other builds
 if os.path.realpath(core.REPO) != os.path.realpath("/repo"):
@@ -27,19 +35,29 @@ if os.path.realpath(core.REPO) != os.path.realpath("/repo"):
             translate_c08_r3.generate("/repo", os.path.join(core.COQ, "gen"))
         except Exception:
             pass
+        try:
+            translate_c08_r4.generate("/repo", os.path.join(core.COQ, "gen"))
+        except Exception:
+            pass
 
     atexit.register(_restore_conv_gen)
 
 
 def extra_phase(tier, seed, exes, oracle):
     word = CONV_GEN_STATUS.split(" ", 1)[0]
+    word4 = CONV_GEN4_STATUS.split(" ", 1)[0]
     return {
         "evaluations": 0,
-        "hist": {"translator_c08:ConvBaseGen:" + word: 1},
+        "hist": {"translator_c08:ConvBaseGen:" + word: 1, "translator_c08:ConvBaseGen4:" + word4: 1},
         "nontrivial": [],
         "samples": [{"fragment": "coq/gen/ConvBaseGen.v (tools/translate_c08_r3.py from float/src/convert.rs)",
                      "status": CONV_GEN_STATUS,
                      "tied_by": "C08_gen_* (Float/ConvBaseGenProof.v) and the as-is model Float/LargeExpAsis.v" if word == "ok"
+                     else "correspondence run only (source not parsed; last good copy marked STALE)"},
+                    {"fragment": "coq/gen/ConvBaseGen4.v (tools/translate_c08_r4.py from float/src/fmt.rs, parse.rs, utils.rs, convert.rs)",
+                     "status": CONV_GEN4_STATUS,
+                     "tied_by": "C08_gen4_* (Float/ConvBaseGen4Proof.v): generated rounding prefixes / format table / marker table / "
+                                "common_root loop body / common-root branch = the hand-written models" if word4 == "ok"
                      else "correspondence run only (source not parsed; last good copy marked STALE)"}],
         "failures": [],
     }
@@ -108,7 +126,7 @@ for _b, _l in sorted(CONV_PAIRS.items()):
     for _nb in _l:
         PAIRS_BY_CLASS.setdefault(pair_class(_b, _nb), []).append((_b, _nb))
 
-LEVEL_TEXT = ("Coq theorems for all inputs (58 pinned): (1) the as-is model of the float parser (Repr::from_str_native transcribed on byte lists: sign, rfind of "
+LEVEL_TEXT = ("Coq theorems for all inputs (87 pinned): (1) the as-is model of the float parser (Repr::from_str_native transcribed on byte lists: sign, rfind of "
               "the scale marker, isize scale, point, hexadecimal form, digit counting, final normalisation; UBig::from_str_radix at its C07 "
               "specification) returns exactly the written value and the number of written digits on every text the documented grammar accepts "
               "(parse_spec = the grammar read left to right), and accepts nothing else: parse_asis = Ok v <-> parse_spec = Some v for every byte string and every base 2..36; "
@@ -128,18 +146,31 @@ LEVEL_TEXT = ("Coq theorems for all inputs (58 pinned): (1) the as-is model of t
               "division to nearest even, truncation): under the log2_bounds contract it is floor(lb/ub), or one more exactly when the division rounded a non-integer quotient up to an integer; NB^p' <= B^p in the "
               "first case, NB^(p'-1) <= B^p always; it is the maximal precision iff pmax * ub <= lb (C08_with_base_precision_closed); (9) FBig::from_parts_const (what the literal macros expand to): the digit "
               "loop = number of digits for every DoubleWord significand, non-power-of-two branch = specification (after the repair F09). Every implementation answer of all "
-              "APIs in observe_at is decided by the extracted specifications / the contract checker.")
-LEVEL_NOTE = ("Partial: the ln/exp route of convert_base (|e| > 38) stays an OPEN finding (not faithfully rounded next to rounding boundaries / for representable values); its accuracy theorem is "
+              "APIs in observe_at is decided by the extracted specifications / the contract checker. Round 4: (10) convert_base AS IT IS after the repairs 344196e (small negative exponent: padded exact "
+              "division, one rounding) and F10 (bases with a common root: exact path through the root, utils::common_root = Euclid on the exponents, proved to end within its fuel, sound and complete) equals ONE "
+              "specification of a base change on EVERY route without logarithm (convert_base_spec: the p-digit float the mode names for the exact value s * B^e, normal form, flag Exact iff nothing was lost; "
+              "C08_convert_base4_spec; the specification is a function of the value only, C08_convert_value_spec_ratio; round_norm of any representation of a value is its specification, "
+              "C08_round_norm_value_spec); the ln/exp route is left only for |e| > 38 between bases WITHOUT a common root (C08_convert_base4_large_no_common_root), and for 10 -> 2 a value on it is "
+              "representable or a tie only beyond 90 bits (C08_decimal_binary_exact_needs_91_bits); (11) the radix-specific formats {:b} {:o} {:x} {:X} of FBig (mode of the type) and Repr (Zero) - "
+              "fmt_round_scientific with the marker and the hexadecimal switch - print the specified WHOLE text: positional forms = the LowerExp text with the marker of the format, hexadecimal form of "
+              "a binary float = significand spec_round-ed to 4p+4 bits, carry undone by four bits (C08_hex_rounded_spec, C08_radix_body_hex), padding with the 0x prefix after the sign "
+              "(C08_radix_format_text_asis_spec); (12) regenerated on every run and proved equal to what the models use (C08_gen4_*): the rounding prefixes of fmt_round and fmt_round_scientific, the "
+              "table of impl_fmt_with_base!, the scale-marker table of the parser, the loop body of common_root, the common-root branch of convert_base.")
+LEVEL_NOTE = ("Partial: the ln/exp route of convert_base (|e| > 38, since round 4 only between bases WITHOUT a common root) stays an OPEN finding (not faithfully rounded next to rounding boundaries / for representable values); its accuracy theorem is "
               "conditional on a k-ulp contract of ln / ln_base / exp (C11: certified per case, not proved universally). Its answers are decided case by case by the contract checker against the exact "
               "rational; a failing answer is a known finding only if it is bit for bit what the as-is model of the route predicts (model evaluated on every case: fidelity 100 %; time budget 3 s, else the "
-              "bound of C08_convert_large_route_error_wp decides). The short-dividend route is C03's repr_div (repr_div_spec / repr_div_magnitude, instantiated in C08_convert_small_neg). Compared, not proved: "
+              "bound of C08_convert_large_route_error_wp decides). On every other route the verdict is strict since round 4: the answer must be convert_base_spec (one rounding of the exact value; fits the target precision). "
+              "The division step itself (div_round_once = correctly rounded quotient) is C06's theorem div_round_once_correct, cited; TextIoModel.convert_base_asis / C08_convert_small_neg describe the code "
+              "BEFORE 344196e and are kept because other properties cite them (C08_convert4_agrees: same answers wherever the code did not change). Compared, not proved: "
               "the power-of-two branch of from_parts_const; Debug output (exact text of Float/DebugSpec.v, IBig's Debug at its C07 specification); the f32 operations inside the C11 models (instantiated in "
               "the oracle with IEEE single arithmetic, log2 = double log2 rounded); soundness of the two log2 bounds with_base divides is C12's contract (decided on every case with C12's bracket test). Trusted: "
               "Coq kernel, translators (round_low_part bodies; tools/translate_c08_r3.py: THRESHOLD_SMALL_EXP, work precision of the ln/exp route, with_base's formula, precision rules of TryFrom<f32/f64> and "
-              "FromStr), extraction + FastZ.v, zarith, harness; UBig::from_str_radix / in_radix / IBig Debug at their C07 specifications; IBig arithmetic is Z (C01/C02).")
-TECHNIQUE = "Coq proof (as-is models of parser, printer incl. padding, with_precision, every convert_base route, with_base precision, IEEE import, from_parts_const = specification or proved contract; print->parse round trip; regenerated fragments) + extracted specification, as-is models and contract checker on a correspondence run"
+              "FromStr; tools/translate_c08_r4.py: straight-line statement compiler for the fmt rounding prefixes, common_root, the common-root branch, and the two tables), extraction + FastZ.v, zarith, harness; UBig::from_str_radix / in_radix / IBig Debug at their C07 specifications; IBig arithmetic is Z (C01/C02).")
+TECHNIQUE = "Coq proof (as-is models of parser, printer incl. padding and the radix-specific formats, with_precision, every convert_base route (= one specification of the value on every route without logarithm), with_base precision, IEEE import, from_parts_const = specification or proved contract; print->parse round trip; regenerated fragments incl. rounding bodies of fmt.rs) + extracted specification, as-is models and contract checker on a correspondence run"
 RULE = ("cases = API (FromStr / from_str_native for FBig and Repr; Display, LowerExp, UpperExp, Debug for FBig and Repr with flags + 0 < > ^ "
-        "x width x precision option; print-then-parse round trips; with_precision; with_base, with_base_and_precision, to_decimal, "
+        "x width x precision option; Binary / Octal / LowerHex / UpperHex of FBig and Repr in the bases 2, 8, 16 (positional and hexadecimal form) with a precision shorter than the significand in every mode: "
+        "dropped parts zero / below / at / above one half, all-maximal digits (carry); integer-valued floats in the top slice NewB^p' <= |x| < B^p of their precision, both directions between 2, 3, 10, 36 ...; "
+        "print-then-parse round trips; with_precision; with_base, with_base_and_precision, to_decimal, "
         "to_binary; with_base's precision alone (wb_prec: source precisions where NewB^n <= B^p is tight, convergents of log NB / log B, up to 2^14 digits, 2^15 thorough); "
         "TryFrom<f32/f64> for FBig and Repr; from_parts_const with DoubleWord significands around every power of the base incl. the largest that fits) x base {2,3,8,10,16,36} "
         "(base changes: 15 source bases x their targets: same, power up/down, common root, multiple, coprime) x six modes x precision "
@@ -151,16 +182,20 @@ RULE = ("cases = API (FromStr / from_str_native for FBig and Repr; Display, Lowe
         "subnormals, extremes of each class, infinities, NaNs, random. non-trivial = the text was accepted / a rounding or a "
         "conversion was performed / the oracle evaluated the specification on a finite value; distinct = distinct case texts.")
 EXPLANATION = ("Verdicts: parse_spec (grammar read left to right) for texts; display_spec / sci_spec = pad_spec around display_body_spec / sci_body_spec (layout + spec_round + padding) for "
-               "printed texts, compared as whole texts; Float/DebugSpec.v for Debug; with_precision_spec; Contract.check_contract against the exact rational s*B^e for base changes "
+               "printed texts, compared as whole texts; radix_spec (Float/RadixFmtModel.v) for {:b} {:o} {:x} {:X}; Float/DebugSpec.v for Debug; with_precision_spec; for base changes on every route without logarithm "
+               "(same base, power-related bases, |exponent| <= 38, bases with a common root) the answer must be exactly convert_base_spec (the correctly rounded p-digit float of the exact value, normal form, truthful flag); "
+               "on the ln/exp route Contract.check_contract against the exact rational s*B^e "
                "(error < 1 ulp of the target precision, <= 1/2 for nearest modes, side, truthful flag, exact if representable, at "
                "most p+1 digits) together with the precision rule (maximal or one less; sound bounds by C12's bracket test); from_parts_const_spec; ieee_decode for f32/f64. "
-               "known:convert_base_large_exp_not_faithful only for the ln/exp route (bases not powers of one another, |exponent| > 38, limited precision) when the contract fails AND the answer is "
+               "known:convert_base_large_exp_not_faithful only for the ln/exp route (bases without a common root, |exponent| > 38, limited precision) when the contract fails AND the answer is "
                "exactly the one the as-is model of the route predicts (a different failing answer is a violation).")
 TRUSTED_BASE = [
     "Coq 8.16.1 kernel",
+    "tools/translate_c08_r4.py compiles the rounding prefixes of Repr::fmt_round / fmt_round_scientific, the loop body of utils::common_root and the common-root branch of convert_base (straight-line Rust -> Gallina) and reads the tables of impl_fmt_with_base! and of the scale markers (status in the evidence; theorems C08_gen4_*)",
     "tools/translate.py renders the six round_low_part bodies of float/src/round.rs faithfully; tools/translate_c08_r3.py renders THRESHOLD_SMALL_EXP, the work precision of the ln/exp route, with_base's formula and the precision rules of TryFrom<f32/f64> / FromStr (float/src/convert.rs, parse.rs) - status in the evidence; tools/translate_c11_r3.py the guard-digit formulas the C11 models read",
     "extraction: ExtrOcamlBasic + ExtrOcamlZBigInt + coq/extract/FastZ.v directives; zarith 1.12; oracle/driver_c08.ml (f32 operations of the C11 models = IEEE single arithmetic via OCaml doubles, log2 = double log2 rounded to single)",
     "harness/src/bin/c08.rs and hlib (floats moved through raw words; texts as hex bytes)",
+    "Conv/ConvModel.div_round_once and its theorem div_round_once_correct (C06: the padded division of convert_base is the correctly rounded quotient) are cited, not re-proved",
     "UBig::from_str_radix, IBig::in_radix and IBig's Debug behave as Int/IoSpec.v, Int/IoDebugModel.v say (C07); IBig arithmetic is Z (C01, C02); log2_bounds are sound (C12; re-decided per case); the as-is models of Context::ln / exp of Float/ElemAsis.v (C11) transcribe the code (fidelity measured by C11 and, through the route, here)",
     "core::fmt::Formatter reports width/precision/flags as written in the format string; DebugStruct's pretty printer lays fields out as documented; isize::from_str accepts [+-]?[0-9]+ within range",
 ]
@@ -409,6 +444,106 @@ def gen_conv(rng, tier, b):
     return "%s %x %s %s %s %x" % (op, b, mode, hx(s), hx(e), p0)
 
 
+def gen_conv_int_top(rng, tier):
+    """integer-valued floats in the top slice of their precision, NewB^p' <= |x| < B^p (p' the target precision with_base
+    chooses: NewB^p' <= B^p < NewB^(p'+1)): they fit the SOURCE precision but not the target one and have to be rounded
+    (seeded change C08_E: a shortcut for integers with the wrong precision in its guard).  Both directions between
+    2, 3, 10, 36 and their neighbours; also one digit below the slice (exact) and the two ends of it."""
+    b, nb = rng.choice([(2, 10), (2, 10), (10, 2), (10, 2), (2, 3), (3, 2), (3, 10), (10, 3), (36, 10), (36, 2), (36, 3), (10, 16),
+                        (2, 5), (5, 2), (7, 10), (7, 2), (16, 10), (8, 10), (100, 3), (6, 10)])
+    p = rng.choice([1, 2, 3, 4, 5, 7, 10, 17, 20, 24, 53, 64, 100])
+    top = b ** p
+    pp, v = 0, 1
+    while v * nb <= top:
+        v *= nb
+        pp += 1
+    lo = v          # NewB^p'
+    k = rng.below(8)
+    if lo >= top:   # B^p is a power of NewB (cannot happen for these pairs, p >= 1) - fall back
+        lo = max(1, top // 2)
+    if k == 0:
+        s = lo
+    elif k == 1:
+        s = top - 1
+    elif k == 2:
+        s = min(top - 1, lo + 1)
+    elif k == 3:
+        s = max(1, lo - 1)          # just below the slice: representable, exact
+    elif k == 4:
+        # a tie / half-way pattern of the target digits: (odd multiple of NewB^j / 2) inside the slice when NewB is even
+        j = max(0, ndigits(top - 1, nb) - pp)
+        unit = nb ** max(1, j)
+        s = (rng.range(lo, top - 1) // unit) * unit + (unit // 2 if nb % 2 == 0 else unit // 2 + rng.below(2))
+        s = min(max(s, lo), top - 1)
+    else:
+        s = rng.range(lo, top - 1)
+    while s % b == 0:               # exponent 0 after normalisation
+        s += 1
+    if s >= top:
+        s = top - 1
+        while s % b == 0:
+            s -= 1
+    if rng.chance(1, 2):
+        s = -s
+    mode = rng.choice(MODES)
+    k2 = rng.below(10)
+    if k2 < 5 or (b, nb) not in [(x, y) for x in CONV_PAIRS for y in CONV_PAIRS[x]]:
+        if nb == 10 and rng.chance(1, 2):
+            return "to_decimal %x %s %s 0 %x" % (b, mode, hx(s), p)
+        if nb == 2 and rng.chance(1, 2):
+            return "to_binary %x %s %s 0 %x" % (b, mode, hx(s), p)
+        return "with_base %x %s %x %s 0 %x" % (b, mode, nb, hx(s), p)
+    if k2 < 8:
+        return "with_base %x %s %x %s 0 %x" % (b, mode, nb, hx(s), p)
+    return "with_base_prec %x %s %x %s 0 %x %x" % (b, mode, nb, hx(s), p, rng.choice([pp, pp, max(1, pp - 1), pp + 1]))
+
+
+RADIX_OPS = {2: ["bin", "bin", "lhex", "lhex", "uhex", "bin_repr", "lhex_repr", "uhex_repr"],
+             8: ["oct", "oct", "oct", "oct_repr"],
+             16: ["lhex", "lhex", "uhex", "uhex", "lhex_repr", "uhex_repr"]}
+
+
+def gen_radix(rng, tier):
+    """{:b} {:o} {:x} {:X} of FBig / Repr in the bases 2, 8, 16 - mostly WITH a precision shorter than the significand
+    (in hexadecimal digits = 4 bits each for the hexadecimal form of base 2), in every mode: dropped parts that are
+    zero / below / at / above one half, all-ones significands (carry into a new digit), one digit, zero; flags + width"""
+    b = rng.choice([2, 2, 8, 16])
+    op = rng.choice(RADIX_OPS[b])
+    hexform = (b == 2 and op.startswith(("lhex", "uhex")))
+    p0 = precisions(rng, tier)
+    d = min(p0, rng.choice([1, 2, 3, 5, 8, 9, 12, 13, 16, 17, 24, 33, p0, p0]))
+    k = rng.below(10)
+    lo, hi = b ** (d - 1), b ** d - 1
+    if k == 0:
+        s = hi                                    # all digits maximal: every rounding up carries
+    elif k == 1:
+        s = lo
+    elif k == 2 and d >= 3:
+        # kept part, then exactly one half of the dropped part (base even): ties
+        cut = rng.range(1, d - 1)
+        s = rng.range(b ** (d - cut - 1), b ** (d - cut) - 1) * b ** cut + (b ** cut) // 2
+    elif k == 3 and d >= 3:
+        cut = rng.range(1, d - 1)
+        s = rng.range(b ** (d - cut - 1), b ** (d - cut) - 1) * b ** cut + (b ** cut) // 2 + rng.choice([-1, 1])
+    elif k == 4 and d >= 3:
+        cut = rng.range(1, d - 1)
+        s = (b ** (d - cut) - 1) * b ** cut + rng.range(0, b ** cut - 1)      # kept digits all maximal
+    else:
+        s = rng.range(lo, hi)
+    e = rng.choice([0, 0, 1, -1, 3, -3, -d, -d + 1, 7, -9, 100, -100, 1000])
+    if rng.chance(1, 25):
+        s, e = 0, 0
+    if rng.chance(1, 2):
+        s = -s
+    nd = (ndigits(s, 2) + 3) // 4 if hexform else ndigits(s, b)          # printed digits
+    pr = rng.choice(["-", 0, 0, 1, 1, 2, 3, max(0, nd - 3), max(0, nd - 2), max(0, nd - 2), nd - 1, nd, nd + 2, 20])
+    fl = rng.choice(FLAGS)
+    approx_len = nd + 6
+    w = rng.choice(["-", "-", "-", 0, 3, 6, approx_len - 1, approx_len, approx_len + 1, approx_len + 4, 30])
+    fx = lambda v: "-" if v == "-" else "%x" % max(0, v)
+    return "%s %x %s %s %s %x %s %s %s" % (op, b, rng.choice(MODES), hx(s), hx(e), p0, fl, fx(w), fx(pr))
+
+
 def gen_wb_prec(rng, tier):
     """FBig::with_base's precision: source precisions at the places where NewB^n <= B^p is tight (p = ceil(n log NB / log B)
     and its neighbours, for n up to 2^14, 2^15 thorough), small precisions, powers of two, the convergents of log NB / log B"""
@@ -487,6 +622,11 @@ def valid(text):
     t = text.split()
     op = t[0]
     try:
+        if op in ("bin", "oct", "lhex", "uhex", "bin_repr", "oct_repr", "lhex_repr", "uhex_repr"):
+            b, s, p0 = int(t[1], 16), core.unhx(t[3]), int(t[5], 16)
+            if b not in RADIX_OPS or op not in RADIX_OPS[b]:
+                return False
+            return p0 == 0 or ndigits(s, b) <= p0
         if op in ("disp", "disp_repr", "lexp", "lexp_repr", "uexp", "uexp_repr", "dbg", "dbg_alt", "dbg_repr", "dbg_repr_alt", "rt", "rt_exp",
                   "with_precision", "to_decimal", "to_binary"):
             b, s, p0 = int(t[1], 16), core.unhx(t[3]), int(t[5], 16)
@@ -517,8 +657,12 @@ def gen_cases(rng, tier, n):
             c = gen_print(rng, tier, b)
         elif k < 68:
             c = gen_misc(rng, tier, b)
-        elif k < 90:
+        elif k < 84:
             c = gen_conv(rng, tier, b)
+        elif k < 87:
+            c = gen_conv_int_top(rng, tier)
+        elif k < 90:
+            c = gen_radix(rng, tier)
         elif k < 92:
             c = gen_wb_prec(rng, tier)
         elif k < 94:
